@@ -13,9 +13,11 @@ Steps (everything in scratch worktrees of /repo HEAD under /tmp, removed afterwa
 import os, sys, subprocess, json, shutil, tempfile, re, time
 
 pid, which = sys.argv[1], sys.argv[2]
-extra = sys.argv[3:]
-src = "/tmp/mut_%s/_mut" % pid
-dst = "/verif/seeded/%s-%s" % (pid, which)
+extra = [a for a in sys.argv[3:] if not a.startswith("--")]
+rnd = 2 if "--round2" in sys.argv else 1
+src = ("/tmp/mut_%s/_mut" if rnd == 1 else "/tmp/mut2_%s/_mut") % pid
+label = which if rnd == 1 else {"A": "C", "B": "D"}[which]       # round 2 changes are kept as <PID>-C / <PID>-D
+dst = "/verif/seeded/%s-%s" % (pid, label)
 patch = os.path.join(src, which + ".diff")
 
 
@@ -35,7 +37,7 @@ def drop(w):
     shutil.rmtree(w, ignore_errors=True)
 
 
-meta = {"id": "%s-%s" % (pid, which), "property": pid, "source": "independent sub-agent given only the property text and a scratch worktree",
+meta = {"id": "%s-%s" % (pid, label), "round": rnd, "property": pid, "source": "independent sub-agent given only the property text and a scratch worktree",
         "repo_head": sh("git -C /repo rev-parse --short HEAD").stdout.strip(), "date": time.strftime("%Y-%m-%d")}
 clean, mut = worktree(), worktree()
 bdir = tempfile.mkdtemp(prefix="impbuild.")
